@@ -24,6 +24,7 @@ impl Writer {
 //@end
 
 //@extract src/writer.rs | impl<D: Distance> Writer<D> | insert_items_in_current_trees
+//@veciter tmp_descendant_to_write
 //@attr #[verifier::exec_allows_no_decreases_clause]
 //@hint before <<<let mut large_descendants = RoaringBitmap::new();>>>
         let ghost v0 = wtxn.view(); let ghost i = self.index; let ghost m0 = tmap(v0, i); let ghost ins0 = to_insert@;
